@@ -54,7 +54,9 @@ def apalache(ctx, name, invs, timeout=600):
 def design_level(ctx):
     """All spec-only runs, concurrently.  Any failure here is a spec problem => Infra."""
     q = ctx.quick()
-    w = 4          # per model-checking run; vlib's machine-wide slot limiter makes larger requests wait
+    # workers per model-checking run; vlib's machine-wide slot limiter makes larger requests wait, and the quick
+    # configurations are small (<= 111k states)
+    w = 2 if q else 4
     mcs = [("PackedIdsImpl", "PackedIdsImpl_quick.cfg" if q else "PackedIdsImpl_thorough.cfg"),
            ("PackedIdsTextMC", "PackedIdsTextMC_quick.cfg" if q else "PackedIdsTextMC_thorough.cfg"),
            ("PackedIdsLimbsMC", "PackedIdsLimbsMC_quick.cfg" if q else "PackedIdsLimbsMC_thorough.cfg")]
